@@ -189,7 +189,7 @@ Definition xmlnsish (nv : rawattr) : bool := is_xmlns_attr (process_qname (fst n
 Definition fa_step (DO : list attr * list attr) (nv : rawattr) : list attr * list attr :=
   let (D, O) := DO in
   if is_nil (fst nv) then DO
-  else if existsb (fun a => str_eqb (qlocal (aname a)) (fst nv)) (D ++ O) then DO
+  else if existsb (fun a => qname_eqb (aname a) (process_qname (fst nv))) (D ++ O) then DO
   else if xmlnsish nv then (D ++ [mk nv], O) else (D, O ++ [mk nv]).
 
 Lemma existsb_rev : forall (A : Type) (f : A -> bool) l, existsb f (rev l) = existsb f l.
@@ -227,17 +227,22 @@ Proof.
   rewrite finish_fold. destruct (fold_left fa_step raws ([], [])); reflexivity.
 Qed.
 
-(* attributes kept by the duplicate test the tokenizer SHOULD apply for
-   unprefixed names: drop when the same raw name was seen *)
-Definition unsplit (n : str) : bool := is_none (prefix_of n).
+(* the split is injective: the qualified name determines the raw name *)
+Lemma process_qname_inj : forall m n, process_qname m = process_qname n -> m = n.
+Proof.
+  intros m n H. rewrite !process_qname_spec in H. inversion H as [[P L]].
+  fold (prefix_of m) (prefix_of n) in P. fold (local_of m) (local_of n) in L.
+  destruct (split_cases m) as [[Pm Lm]|(pm & lm & Pm & Lm & Em & _)];
+  destruct (split_cases n) as [[Pn Ln]|(pn & ln & Pn & Ln & En & _)]; try congruence.
+Qed.
 
-Fixpoint keptU (seen : list str) (raws : list rawattr) : list rawattr :=
-  match raws with
-  | [] => []
-  | (n, v) :: r =>
-    if unsplit n && existsb (str_eqb n) seen then keptU (n :: seen) r
-    else (n, v) :: keptU (n :: seen) r
-  end.
+Lemma qname_eqb_eq : forall a b, qname_eqb a b = true <-> a = b.
+Proof.
+  intros [p1 n1 l1] [p2 n2 l2]. unfold qname_eqb. simpl.
+  rewrite !andb_true_iff, ostr_eqb_eq, !str_eqb_eq. split.
+  - intros [[? ?] ?]. congruence.
+  - intro H. inversion H. auto.
+Qed.
 
 Lemma existsb_str_In : forall n l, existsb (str_eqb n) l = true <-> In n l.
 Proof.
@@ -246,87 +251,69 @@ Proof.
   - intro H. exists n. split; auto. apply str_eqb_refl.
 Qed.
 
-Lemma class8_from_cons : forall seen n v r,
-  class8_from seen ((n, v) :: r) = false ->
-  (forall m, In m seen -> local_of m = n -> m = n) /\ class8_from (n :: seen) r = false.
+(* the attributes the tokenizer keeps: the first of each raw name *)
+Fixpoint keptR (seen : list str) (raws : list rawattr) : list rawattr :=
+  match raws with
+  | [] => []
+  | (n, v) :: r =>
+    if is_nil n then keptR seen r
+    else if existsb (str_eqb n) seen then keptR seen r
+    else (n, v) :: keptR (n :: seen) r
+  end.
+
+Lemma tk_kept : forall post seen D O,
+  (forall a, In a (D ++ O) -> exists m v, a = mk (m, v) /\ In m seen) ->
+  (forall m, In m seen -> exists a, In a (D ++ O) /\ aname a = process_qname m) ->
+  fold_left fa_step post (D, O) =
+  (D ++ map mk (filter xmlnsish (keptR seen post)),
+   O ++ map mk (filter (fun x => negb (xmlnsish x)) (keptR seen post))).
 Proof.
-  intros seen n v r H. simpl in H. apply orb_false_iff in H. destruct H as [H1 H2]. split; auto.
-  intros m Hm L. destruct (str_eqb m n) eqn:E; [apply str_eqb_eq; auto|].
-  exfalso. assert (existsb (fun m0 => str_eqb (snd (spec_split m0)) n && negb (str_eqb m0 n)) seen = true).
-  { apply existsb_exists. exists m. split; auto. fold (local_of m). rewrite L, str_eqb_refl, E. reflexivity. }
-  congruence.
+  induction post as [|[n v] post IH]; intros seen D O I1 I2.
+  - simpl. rewrite !app_nil_r. reflexivity.
+  - cbn [fold_left keptR]. unfold fa_step at 2. simpl fst.
+    destruct (is_nil n) eqn:En; [apply IH; auto|].
+    assert (T : existsb (fun a => qname_eqb (aname a) (process_qname n)) (D ++ O) = existsb (str_eqb n) seen).
+    { destruct (existsb (str_eqb n) seen) eqn:S.
+      - apply existsb_str_In in S. destruct (I2 n S) as (a & Ha & E).
+        apply existsb_exists. exists a. split; auto. apply qname_eqb_eq. auto.
+      - destruct (existsb _ (D ++ O)) eqn:Ex; auto.
+        apply existsb_exists in Ex. destruct Ex as (a & Ha & E). apply qname_eqb_eq in E.
+        destruct (I1 a Ha) as (m & v' & -> & Hm). unfold mk in E. simpl in E.
+        apply process_qname_inj in E. subst m.
+        assert (existsb (str_eqb n) seen = true) by (apply existsb_str_In; auto). congruence. }
+    rewrite T. destruct (existsb (str_eqb n) seen) eqn:S; [apply IH; auto|].
+    destruct (xmlnsish (n, v)) eqn:X.
+    + rewrite IH with (seen := n :: seen).
+      * simpl filter. rewrite X. simpl. rewrite <- !app_assoc. reflexivity.
+      * intros a Ha. rewrite <- app_assoc in Ha. apply in_app_or in Ha. destruct Ha as [Ha|Ha].
+        -- destruct (I1 a (in_or_app _ _ _ (or_introl Ha))) as (m & v' & E & Hm). exists m, v'. split; auto. right; auto.
+        -- simpl in Ha. destruct Ha as [Ha|Ha].
+           ++ exists n, v. split; auto. left; auto.
+           ++ destruct (I1 a (in_or_app _ _ _ (or_intror Ha))) as (m & v' & E & Hm). exists m, v'. split; auto. right; auto.
+      * intros m [Hm|Hm].
+        -- subst m. exists (mk (n, v)). split; [|reflexivity].
+           apply in_or_app. left. apply in_or_app. right. left. reflexivity.
+        -- destruct (I2 m Hm) as (a & Ha & L). exists a. split; auto.
+           apply in_app_or in Ha. apply in_or_app. destruct Ha; [left; apply in_or_app; left; auto|right; auto].
+    + rewrite IH with (seen := n :: seen).
+      * simpl filter. rewrite X. simpl. rewrite <- !app_assoc. reflexivity.
+      * intros a Ha. rewrite app_assoc in Ha. apply in_app_or in Ha. destruct Ha as [Ha|Ha].
+        -- destruct (I1 a Ha) as (m & v' & E & Hm). exists m, v'. split; auto. right; auto.
+        -- simpl in Ha. destruct Ha as [Ha|[]]. exists n, v. split; auto. left; auto.
+      * intros m [Hm|Hm].
+        -- subst m. exists (mk (n, v)). split; [|reflexivity].
+           rewrite app_assoc. apply in_or_app. right. left. reflexivity.
+        -- destruct (I2 m Hm) as (a & Ha & L). exists a. split; auto.
+           rewrite app_assoc. apply in_or_app. left. auto.
 Qed.
 
-(* the tokenizer's (D, O) outside class 8 *)
-Lemma tk_outside_class8 : forall post seen D O,
-  (forall a, In a (D ++ O) -> exists m v, a = mk (m, v) /\ In m seen) ->
-  (forall m, In m seen -> unsplit m = true -> exists a, In a (D ++ O) /\ qlocal (aname a) = m) ->
-  class8_from seen post = false -> names_nonempty post = true ->
-  fold_left fa_step post (D, O) =
-  (D ++ map mk (filter xmlnsish (keptU seen post)), O ++ map mk (filter (fun x => negb (xmlnsish x)) (keptU seen post))).
+Lemma tk_spec : forall raws,
+  tk raws = (map mk (filter xmlnsish (keptR [] raws)),
+             map mk (filter (fun x => negb (xmlnsish x)) (keptR [] raws))).
 Proof.
-  induction post as [|[n v] post IH]; intros seen D O I1 I2 C8 NE.
-  - simpl. rewrite !app_nil_r. reflexivity.
-  - apply class8_from_cons in C8. destruct C8 as [C8 C8'].
-    simpl in NE. apply andb_true_iff in NE. destruct NE as [NE1 NE].
-    cbn [fold_left].
-    destruct (is_nil n) eqn:En; [discriminate|]. clear NE1.
-    assert (Hs : fa_step (D, O) (n, v) =
-                 if existsb (fun a => str_eqb (qlocal (aname a)) n) (D ++ O) then (D, O)
-                 else if xmlnsish (n, v) then (D ++ [mk (n, v)], O) else (D, O ++ [mk (n, v)])).
-    { unfold fa_step. simpl fst. rewrite En. reflexivity. }
-    rewrite Hs. clear Hs.
-    assert (T : existsb (fun a => str_eqb (qlocal (aname a)) n) (D ++ O) = unsplit n && existsb (str_eqb n) seen).
-    { destruct (existsb (fun a => str_eqb (qlocal (aname a)) n) (D ++ O)) eqn:Ex.
-      - apply existsb_exists in Ex. destruct Ex as (a & Ha & E). apply str_eqb_eq in E.
-        destruct (I1 a Ha) as (m & v' & -> & Hm). unfold mk in E. simpl in E. rewrite qlocal_process in E.
-        assert (m = n) by (apply C8; auto). subst m.
-        symmetry. apply andb_true_iff. split; [|apply existsb_str_In; auto].
-        unfold unsplit. destruct (local_eq_cases n n E) as [[_ P]|[P NC]].
-        + rewrite P. reflexivity.
-        + destruct (prefix_of n) eqn:PP; [|reflexivity]. apply prefixed_has_colon in PP. congruence.
-      - symmetry. apply andb_false_iff. destruct (unsplit n) eqn:U; [right|left; auto].
-        destruct (existsb (str_eqb n) seen) eqn:S; auto. apply existsb_str_In in S.
-        destruct (I2 n S U) as (a & Ha & L). exfalso.
-        assert (existsb (fun a => str_eqb (qlocal (aname a)) n) (D ++ O) = true).
-        { apply existsb_exists. exists a. split; auto. rewrite L. apply str_eqb_refl. }
-        congruence. }
-    rewrite T. cbn [keptU].
-    destruct (unsplit n && existsb (str_eqb n) seen) eqn:Drop.
-    + (* dropped *)
-      apply IH; auto.
-      * intros a Ha. destruct (I1 a Ha) as (m & v' & E & Hm). exists m, v'. split; auto. right; auto.
-      * intros m [Hm|Hm] U.
-        -- subst m. apply andb_true_iff in Drop. destruct Drop as [_ S]. apply existsb_str_In in S. apply I2; auto.
-        -- apply I2; auto.
-    + (* kept *)
-      destruct (xmlnsish (n, v)) eqn:X.
-      * rewrite IH with (seen := n :: seen); auto.
-        -- simpl filter. rewrite X. simpl. rewrite <- !app_assoc. reflexivity.
-        -- intros a Ha. rewrite <- app_assoc in Ha. apply in_app_or in Ha. destruct Ha as [Ha|Ha].
-           ++ destruct (I1 a (in_or_app _ _ _ (or_introl Ha))) as (m & v' & E & Hm). exists m, v'. split; auto. right; auto.
-           ++ simpl in Ha. destruct Ha as [Ha|Ha].
-              ** exists n, v. split; auto. left; auto.
-              ** destruct (I1 a (in_or_app _ _ _ (or_intror Ha))) as (m & v' & E & Hm). exists m, v'. split; auto. right; auto.
-        -- intros m [Hm|Hm] U.
-           ++ subst m. exists (mk (n, v)). split.
-              ** apply in_or_app. left. apply in_or_app. right. left. reflexivity.
-              ** unfold mk. simpl. rewrite qlocal_process. apply unprefixed_local.
-                 unfold unsplit in U. destruct (prefix_of n); [discriminate|reflexivity].
-           ++ destruct (I2 m Hm U) as (a & Ha & L). exists a. split; auto.
-              apply in_app_or in Ha. apply in_or_app. destruct Ha; [left; apply in_or_app; left; auto|right; auto].
-      * rewrite IH with (seen := n :: seen); auto.
-        -- simpl filter. rewrite X. simpl. rewrite <- !app_assoc. reflexivity.
-        -- intros a Ha. rewrite app_assoc in Ha. apply in_app_or in Ha. destruct Ha as [Ha|Ha].
-           ++ destruct (I1 a Ha) as (m & v' & E & Hm). exists m, v'. split; auto. right; auto.
-           ++ simpl in Ha. destruct Ha as [Ha|[]]. exists n, v. split; auto. left; auto.
-        -- intros m [Hm|Hm] U.
-           ++ subst m. exists (mk (n, v)). split.
-              ** rewrite app_assoc. apply in_or_app. right. left. reflexivity.
-              ** unfold mk. simpl. rewrite qlocal_process. apply unprefixed_local.
-                 unfold unsplit in U. destruct (prefix_of n); [discriminate|reflexivity].
-           ++ destruct (I2 m Hm U) as (a & Ha & L). exists a. split; auto.
-              rewrite app_assoc. apply in_or_app. left. auto.
+  intro raws. unfold tk. rewrite (tk_kept raws [] [] []); auto.
+  - intros a [].
+  - intros m [].
 Qed.
 
 (* ------------------------------------------------------------ NamespaceMap *)
@@ -432,20 +419,17 @@ Qed.
 
 Lemma xmlnsish_classify : forall n v, xmlnsish (n, v) =
   match classify_raw n with
-  | KOther (Some _) l => str_eqb l s_xmlns
-  | KOther None _ => false
+  | KOther _ _ => false
   | _ => true
   end.
 Proof.
   intros n v. unfold xmlnsish, is_xmlns_attr. simpl fst. rewrite qlocal_process, qprefix_process.
   destruct (classify_raw n) as [| p | p l] eqn:C.
-  - apply classify_default in C. destruct C as (_ & P & L). rewrite L, str_eqb_refl. reflexivity.
-  - apply classify_prefixdecl in C. destruct C as (_ & P & L). rewrite P. simpl. apply orb_true_r.
+  - apply classify_default in C. destruct C as (_ & P & L). rewrite P, L, str_eqb_refl. reflexivity.
+  - apply classify_prefixdecl in C. destruct C as (_ & P & L). rewrite P. simpl. reflexivity.
   - apply classify_other in C. destruct C as (P & L & NX & ND). rewrite P, L.
     destruct p as [p|].
-    + simpl. destruct (str_eqb p s_xmlns) eqn:E.
-      * apply str_eqb_eq in E. subst. congruence.
-      * apply orb_false_r.
+    + simpl. apply str_eqb_neq. congruence.
     + simpl. rewrite orb_false_r. apply str_eqb_neq. auto.
 Qed.
 
@@ -479,6 +463,17 @@ Proof.
 Qed.
 
 (* ------------------------------- the map of a tag = its declared bindings *)
+
+Definition is_decl_name (n : str) : bool :=
+  match classify_raw n with KOther _ _ => false | _ => true end.
+
+(* two declarations with the same name (cannot survive the tokenizer) *)
+Fixpoint dup_decl_from (seen : list str) (raws : list rawattr) : bool :=
+  match raws with
+  | [] => false
+  | (n, _) :: r =>
+    (is_decl_name n && existsb (str_eqb n) seen) || dup_decl_from (n :: seen) r
+  end.
 
 Lemma dup_decl_from_mono : forall r seen seen',
   (forall x, In x seen -> In x seen') -> dup_decl_from seen' r = false -> dup_decl_from seen r = false.
@@ -613,35 +608,58 @@ Proof.
            destruct (str_eqb p s_xml) eqn:E1; [destruct (str_eqb v XML_URI); reflexivity|].
            destruct (str_eqb p s_xmlns) eqn:E2; [reflexivity|].
            rewrite step_insert; auto. rewrite ostr_eqb_sym, EK. reflexivity.
-      * (* p:xmlns *)
-        rewrite IH. unfold tag_binding. cbn [first_decl]. rewrite C. reflexivity.
+      * discriminate X.
     + rewrite IH. unfold tag_binding. cbn [first_decl].
       rewrite xmlnsish_classify in X.
       destruct (classify_raw n) as [| p | p l] eqn:C; try discriminate. reflexivity.
 Qed.
 
-Lemma keptU_xmlnsish : forall raws seen, dup_decl_from seen raws = false ->
-  filter xmlnsish (keptU seen raws) = filter xmlnsish raws.
+Lemma keptR_names : forall raws seen n v, In (n, v) (keptR seen raws) -> ~ In n seen /\ n <> [].
 Proof.
-  induction raws as [|[n v] r IH]; intros seen H; simpl; auto.
-  simpl in H. apply orb_false_iff in H. destruct H as [H1 H2].
-  destruct (unsplit n && existsb (str_eqb n) seen) eqn:Drop.
-  - rewrite IH; auto. destruct (xmlnsish (n, v)) eqn:X; auto. exfalso.
-    apply andb_true_iff in Drop. destruct Drop as [U S]. rewrite S, andb_true_r in H1.
-    rewrite xmlnsish_classify in X. unfold is_decl_name in H1. unfold unsplit in U.
-    destruct (classify_raw n) as [| p | p l] eqn:C; try discriminate.
-    apply classify_other in C. destruct C as (P & _). rewrite P in U.
-    destruct p; simpl in U; discriminate.
-  - simpl. rewrite IH; auto.
+  induction raws as [|[m w] r IH]; intros seen n v H; simpl in H; [contradiction|].
+  destruct (is_nil m) eqn:En; [apply IH in H; auto|].
+  destruct (existsb (str_eqb m) seen) eqn:S; [apply IH in H; auto|].
+  destruct H as [H|H].
+  - inversion H; subst. split.
+    + intro X. apply existsb_str_In in X. congruence.
+    + intro X. subst. discriminate.
+  - apply IH in H. destruct H as [H1 H2]. split; auto. intro X. apply H1. right. auto.
 Qed.
 
-Lemma tk_scope_ok : forall raws, names_nonempty raws = true -> class8 raws = false ->
-  tk raws = (map mk (filter xmlnsish (keptU [] raws)),
-             map mk (filter (fun x => negb (xmlnsish x)) (keptU [] raws))).
+Lemma keptR_nodup_decl : forall raws seen, dup_decl_from seen (keptR seen raws) = false.
 Proof.
-  intros raws NE C8. unfold tk. rewrite (tk_outside_class8 raws [] [] []); auto.
-  - intros a [].
-  - intros m [].
+  induction raws as [|[n v] r IH]; intro seen; simpl; auto.
+  destruct (is_nil n); auto. destruct (existsb (str_eqb n) seen) eqn:S; auto.
+  simpl. rewrite S, andb_false_r. simpl. apply IH.
+Qed.
+
+Lemma first_decl_skip : forall k n v r, decl_key n <> Some k -> first_decl k ((n, v) :: r) = first_decl k r.
+Proof.
+  intros k n v r H. cbn [first_decl]. unfold decl_key in H.
+  destruct (classify_raw n) as [| p | p l]; auto.
+  - destruct k; auto. exfalso. apply H. reflexivity.
+  - destruct (ostr_eqb k (Some p)) eqn:E; auto. apply ostr_eqb_eq in E. subst k. exfalso. apply H. reflexivity.
+Qed.
+
+(* dropping later attributes with an already seen name does not change what the tag declares *)
+Lemma first_decl_kept : forall k raws seen,
+  (forall n, In n seen -> decl_key n <> Some k) ->
+  first_decl k (keptR seen raws) = first_decl k raws.
+Proof.
+  induction raws as [|[n v] r IH]; intros seen H; [reflexivity|].
+  cbn [keptR]. destruct (is_nil n) eqn:En.
+  { destruct n; [|discriminate]. rewrite first_decl_skip; [apply IH; auto|]. vm_compute. discriminate. }
+  destruct (existsb (str_eqb n) seen) eqn:S.
+  - apply existsb_str_In in S. rewrite first_decl_skip; [apply IH; auto|apply H; auto].
+  - destruct (decl_key n) as [k'|] eqn:DK.
+    + destruct (ostr_eqb_eq k' k) as [_ E]. destruct (ostr_eqb k' k) eqn:EK.
+      * apply ostr_eqb_eq in EK. subst k'. unfold decl_key in DK. cbn [first_decl].
+        destruct (classify_raw n) as [| p | p l]; inversion DK; subst; cbn [is_none]; auto.
+        rewrite ostr_eqb_refl. reflexivity.
+      * assert (NK : decl_key n <> Some k) by (rewrite DK; intro X; inversion X; subst; rewrite ostr_eqb_refl in EK; discriminate).
+        rewrite !first_decl_skip; auto. apply IH. intros m [Hm|Hm]; [subst; auto|auto].
+    + assert (NK : decl_key n <> Some k) by (rewrite DK; discriminate).
+      rewrite !first_decl_skip; auto. apply IH. intros m [Hm|Hm]; [subst; auto|auto].
 Qed.
 
 Lemma forallb_map_filter_neg : forall l,
@@ -651,21 +669,13 @@ Proof.
   destruct (negb (xmlnsish x)) eqn:E; simpl; auto. rewrite IH, andb_true_r. exact E.
 Qed.
 
-Lemma scope_ok_parts : forall raws, scope_ok raws = true ->
-  names_nonempty raws = true /\ class8 raws = false /\ dup_decl raws = false.
+(* the map a tag pushes is exactly what the tag declares - for EVERY tag *)
+Theorem dmap_binding : forall raws k, nm_get (dmap raws) k = tag_binding k raws.
 Proof.
-  intros raws H. unfold scope_ok in H. apply andb_true_iff in H. destruct H as [H H3].
-  apply andb_true_iff in H. destruct H as [H1 H2].
-  apply negb_true_iff in H2. apply negb_true_iff in H3. auto.
-Qed.
-
-Theorem dmap_binding : forall raws, scope_ok raws = true ->
-  forall k, nm_get (dmap raws) k = tag_binding k raws.
-Proof.
-  intros raws H k. apply scope_ok_parts in H. destruct H as (NE & C8 & DD).
-  unfold dmap. rewrite tok_attrs_tk, tk_scope_ok; auto. simpl fst. simpl snd.
+  intros raws k. unfold dmap. rewrite tok_attrs_tk, tk_spec. simpl fst. simpl snd.
   rewrite declare_map_app. rewrite (declare_map_skip (map mk (filter _ _))) by apply forallb_map_filter_neg.
-  rewrite keptU_xmlnsish by exact DD. apply decl_binding. exact DD.
+  rewrite decl_binding by apply keptR_nodup_decl.
+  unfold tag_binding. rewrite first_decl_kept; auto.
 Qed.
 
 (* ------------------------------------- process_namespaces as a pure function *)
@@ -1155,12 +1165,10 @@ Proof.
   destruct (nm_get m k); auto.
 Qed.
 
-Lemma find_in_maps : forall ctx k, forallb scope_ok ctx = true ->
-  find_in (map dmap ctx) k = lookup k ctx.
+Lemma find_in_maps : forall ctx k, find_in (map dmap ctx) k = lookup k ctx.
 Proof.
-  induction ctx as [|t r IH]; intros k H; simpl; auto.
-  simpl in H. apply andb_true_iff in H. destruct H as [H1 H2].
-  rewrite dmap_binding; auto. destruct (tag_binding k t); auto.
+  induction ctx as [|t r IH]; intros k; simpl; auto.
+  rewrite dmap_binding. destruct (tag_binding k t); auto.
 Qed.
 
 Local Opaque s_xml s_xmlns s_script XML_URI XMLNS_URI.
@@ -1177,11 +1185,11 @@ Proof.
   - auto.
 Qed.
 
-Lemma bindq_spec : forall ctx p l, forallb scope_ok ctx = true ->
+Lemma bindq_spec : forall ctx p l,
   bindq (maps_of ctx) (mkq p [] l) = mkq p (resolve p ctx) l.
 Proof.
-  intros ctx p l H. unfold bindq, maps_of, resolve. simpl qprefix. simpl qlocal.
-  rewrite find_in_app, find_in_maps; auto.
+  intros ctx p l. unfold bindq, maps_of, resolve. simpl qprefix. simpl qlocal.
+  rewrite find_in_app, find_in_maps.
   destruct (lookup p ctx) as [[u|]|]; auto.
   change (find_in [nm_default] p) with
     (match nm_get nm_default p with Some v => Some v | None => @None (option str) end).
@@ -1192,14 +1200,26 @@ Qed.
 Theorem elem_name_spec : forall ctx name attrs src,
   elem_lex ctx name attrs src -> name_scoped ctx name attrs src.
 Proof.
-  intros ctx name attrs src [E _] H. unfold spec_elem_name.
-  rewrite E, process_qname_spec. rewrite bindq_spec; auto.
+  intros ctx name attrs src [E _]. unfold name_scoped, spec_elem_name.
+  rewrite E, process_qname_spec. rewrite bindq_spec.
   destruct (spec_split (fst src)); reflexivity.
 Qed.
 
 (* ----------------------------------------------------------- attributes *)
 
 Definition nonx (x : rawattr) : bool := negb (xmlnsish x).
+
+Lemma pair_eqb_eq' : forall a b, pair_eqb a b = true <-> a = b.
+Proof.
+  intros [a1 a2] [b1 b2]. unfold pair_eqb. simpl. rewrite andb_true_iff, !str_eqb_eq.
+  split; [intros [? ?]; congruence|intro H; inversion H; auto].
+Qed.
+
+Lemma akey_eqb_eq' : forall a b, akey_eqb a b = true <-> a = b.
+Proof.
+  intros [a1 a2] [b1 b2]. unfold akey_eqb. simpl. rewrite andb_true_iff, pair_eqb_eq', Bool.eqb_true_iff.
+  split; [intros [? ?]; congruence|intro H; inversion H; auto].
+Qed.
 
 Lemma bind_attrs_pure_skip : forall D maps P rest,
   forallb (fun a => is_xmlns_attr (aname a)) D = true ->
@@ -1209,83 +1229,85 @@ Proof.
   simpl in H. apply andb_true_iff in H. destruct H as [H1 H2]. rewrite H1. apply IH; auto.
 Qed.
 
-Definition Rel (seenU : list str) (P : list (str * str)) (S : list (bool * (str * str))) : Prop :=
+Definition Rel (scopes : list (list rawattr)) (seen : list str) (P : list (str * str))
+           (S : list (bool * (str * str))) : Prop :=
   (forall n, classify_raw n = KOther None n ->
-             existsb (str_eqb n) seenU = existsb (akey_eqb (false, ([], n))) S) /\
-  (forall pr, existsb (pair_eqb pr) P = existsb (akey_eqb (true, pr)) S).
+             existsb (str_eqb n) seen = existsb (akey_eqb (false, ([], n))) S) /\
+  (forall pr, existsb (pair_eqb pr) P = existsb (akey_eqb (true, pr)) S) /\
+  (forall n p l, classify_raw n = KOther (Some p) l -> In n seen ->
+                 existsb (akey_eqb (true, (resolve (Some p) scopes, l))) S = true).
 
-Lemma Rel_seen_other : forall n seenU P S, Rel seenU P S ->
-  (forall n', classify_raw n' = KOther None n' -> n' <> n) -> Rel (n :: seenU) P S.
+Lemma Rel_seen_decl : forall scopes n seen P S, Rel scopes seen P S ->
+  (forall p l, classify_raw n <> KOther p l) -> Rel scopes (n :: seen) P S.
 Proof.
-  intros n seenU P S [R1 R2] H. split; auto.
-  intros n' C. simpl. rewrite R1; auto.
-  assert (E : str_eqb n' n = false) by (apply str_eqb_neq; auto). rewrite E. reflexivity.
+  intros scopes n seen P S (R1 & R2 & R3) H. split; [|split]; auto.
+  - intros n' C. simpl. rewrite R1; auto.
+    assert (E : str_eqb n' n = false) by (apply str_eqb_neq; intro; subst; eapply H; eauto). rewrite E. reflexivity.
+  - intros n' p l C [E|I]; [subst; exfalso; eapply H; eauto|eauto].
 Qed.
 
 Lemma process_qname_mk : forall n, process_qname n = mkq (prefix_of n) [] (local_of n).
 Proof. intro n. apply process_qname_spec. Qed.
 
-Lemma attrs_compose : forall scopes, forallb scope_ok scopes = true ->
-  forall raws seenU P S, Rel seenU P S -> class9 raws = false ->
-  bind_attrs_pure (maps_of scopes) P (map mk (filter nonx (keptU seenU raws))) =
+Lemma attrs_compose : forall scopes raws seen P S, Rel scopes seen P S ->
+  bind_attrs_pure (maps_of scopes) P (map mk (filter nonx (keptR seen raws))) =
   dedup_from S (filter_map (spec_attr scopes) raws).
 Proof.
-  intros scopes OK. induction raws as [|[n v] r IH]; intros seenU P S RL C9; [reflexivity|].
-  simpl in C9. apply orb_false_iff in C9. destruct C9 as [C9 C9r].
-  cbn [keptU filter_map]. unfold spec_attr at 1. simpl fst. simpl snd.
+  intros scopes. induction raws as [|[n v] r IH]; intros seen P S RL; [reflexivity|].
+  cbn [keptR filter_map]. unfold spec_attr at 1. simpl fst. simpl snd.
+  destruct (is_nil n) eqn:En; [apply IH; auto|].
   pose proof (xmlnsish_classify n v) as X.
   destruct (classify_raw n) as [| p | p l] eqn:C.
-  - (* xmlns= *)
-    assert (RL' : Rel (n :: seenU) P S).
-    { apply Rel_seen_other; auto. intros n' C' E. subst. congruence. }
-    destruct (unsplit n && existsb (str_eqb n) seenU).
-    + apply IH; auto.
-    + cbn [filter]. unfold nonx at 1. rewrite X. simpl. apply IH; auto.
-  - assert (RL' : Rel (n :: seenU) P S).
-    { apply Rel_seen_other; auto. intros n' C' E. subst. congruence. }
-    destruct (unsplit n && existsb (str_eqb n) seenU).
-    + apply IH; auto.
-    + cbn [filter]. unfold nonx at 1. rewrite X. simpl. apply IH; auto.
+  - assert (RL' : Rel scopes (n :: seen) P S) by (apply Rel_seen_decl; auto; intros; congruence).
+    destruct (existsb (str_eqb n) seen); [apply IH; auto|].
+    cbn [filter]. unfold nonx at 1. rewrite X. simpl. apply IH; auto.
+  - assert (RL' : Rel scopes (n :: seen) P S) by (apply Rel_seen_decl; auto; intros; congruence).
+    destruct (existsb (str_eqb n) seen); [apply IH; auto|].
+    cbn [filter]. unfold nonx at 1. rewrite X. simpl. apply IH; auto.
   - pose proof (classify_other _ _ _ C) as (PF & LC & NX & ND).
+    destruct RL as (R1 & R2 & R3).
     destruct p as [p|].
     + (* prefixed attribute *)
-      rewrite C9 in X.
-      assert (U : unsplit n = false) by (unfold unsplit; rewrite PF; reflexivity).
-      rewrite U. simpl andb. cbn [filter]. unfold nonx at 1. rewrite X. simpl negb. cbn [map].
-      cbn [bind_attrs_pure].
-      assert (XA : is_xmlns_attr (aname (mk (n, v))) = false) by exact X. rewrite XA.
-      unfold mk at 1. simpl aname. rewrite process_qname_mk, PF, LC. simpl qprefix.
-      rewrite bindq_spec; auto.
-      simpl qns. simpl qlocal. unfold mk. simpl avalue. simpl snd.
-      cbn [dedup_from]. unfold akey at 1. simpl.
-      destruct RL as [R1 R2]. rewrite R2.
-      destruct (existsb (akey_eqb (true, (resolve (Some p) scopes, l))) S) eqn:EX.
-      * apply IH; auto. apply Rel_seen_other; [split; auto|]. intros n' C' E. subst. congruence.
-      * f_equal. apply IH; auto. split.
-        -- intros n' C'. simpl. rewrite R1; auto.
-           assert (E : str_eqb n' n = false) by (apply str_eqb_neq; intro; subst; congruence).
-           rewrite E. reflexivity.
-        -- intro pr. simpl. rewrite R2. unfold akey_eqb at 1. simpl. reflexivity.
+      cbn [dedup_from]. unfold akey at 1. simpl negb. simpl qns. simpl qlocal. simpl snd.
+      destruct (existsb (str_eqb n) seen) eqn:SN.
+      * (* the tokenizer dropped it: an earlier attribute has the same name, hence the same expanded name *)
+        apply existsb_str_In in SN. rewrite (R3 n p l C SN). apply IH. split; [|split]; auto.
+      * cbn [filter]. unfold nonx at 1. rewrite X. simpl negb. cbn [map bind_attrs_pure].
+        assert (XA : is_xmlns_attr (aname (mk (n, v))) = false) by exact X. rewrite XA.
+        unfold mk at 1. simpl aname. rewrite process_qname_mk, PF, LC. simpl qprefix.
+        rewrite bindq_spec. simpl qns. simpl qlocal. unfold mk. simpl avalue. simpl snd.
+        rewrite R2.
+        destruct (existsb (akey_eqb (true, (resolve (Some p) scopes, l))) S) eqn:EX.
+        -- apply IH. split; [|split]; auto.
+           ++ intros n' C'. simpl. rewrite R1; auto.
+              assert (E : str_eqb n' n = false) by (apply str_eqb_neq; intro; subst; congruence).
+              rewrite E. reflexivity.
+           ++ intros n' p' l' C' [E|I]; [subst n'; rewrite C in C'; inversion C'; subst; exact EX|eauto].
+        -- f_equal. apply IH. split; [|split].
+           ++ intros n' C'. simpl. rewrite R1; auto.
+              assert (E : str_eqb n' n = false) by (apply str_eqb_neq; intro; subst; congruence).
+              rewrite E. reflexivity.
+           ++ intro pr. simpl. rewrite R2. reflexivity.
+           ++ intros n' p' l' C' [E|I].
+              ** subst n'. rewrite C in C'. inversion C'; subst. simpl.
+                 rewrite (proj2 (akey_eqb_eq' _ _) eq_refl). reflexivity.
+              ** simpl. rewrite (R3 _ _ _ C' I). first [reflexivity|apply orb_true_r].
     + (* unprefixed attribute *)
       assert (LN : l = n) by (rewrite <- LC; apply unprefixed_local; auto). rewrite LN in *. clear LN.
-      assert (U : unsplit n = true) by (unfold unsplit; rewrite PF; reflexivity).
-      rewrite U. simpl andb.
-      destruct RL as [R1 R2].
       cbn [dedup_from].
-      assert (EQ : existsb (str_eqb n) seenU = existsb (akey_eqb (akey (mka (mkq None [] n) v))) S)
+      assert (EQ : existsb (str_eqb n) seen = existsb (akey_eqb (akey (mka (mkq None [] n) v))) S)
         by (rewrite (R1 n C); reflexivity).
       rewrite EQ. clear EQ.
       destruct (existsb (akey_eqb (akey (mka (mkq None [] n) v))) S) eqn:EX.
-      * apply IH; auto. split; auto.
-        intros n' C'. simpl. rewrite R1; auto.
-        destruct (str_eqb n' n) eqn:E; auto. apply str_eqb_eq in E. subst. simpl. auto.
+      * apply IH. split; [|split]; auto.
       * cbn [filter]. unfold nonx at 1. rewrite X. simpl negb. cbn [map bind_attrs_pure].
         assert (XA : is_xmlns_attr (aname (mk (n, v))) = false) by exact X. rewrite XA.
         unfold mk at 1. simpl aname. rewrite process_qname_mk, PF. simpl qprefix.
         unfold mk. simpl fst. simpl snd. rewrite process_qname_mk, PF, LC.
-        f_equal. apply IH; auto. split.
+        f_equal. apply IH. split; [|split].
         -- intros n' C'. simpl. rewrite R1; auto.
         -- intro pr. simpl. rewrite R2. reflexivity.
+        -- intros n' p' l' C' [E|I]; [subst; congruence|]. simpl. rewrite (R3 _ _ _ C' I). first [reflexivity|apply orb_true_r].
 Qed.
 
 Lemma forallb_rev_xmlnsish : forall l,
@@ -1298,14 +1320,11 @@ Qed.
 Theorem elem_attrs_spec : forall ctx name attrs src,
   elem_lex ctx name attrs src -> attrs_scoped ctx name attrs src.
 Proof.
-  intros ctx name attrs src [_ E] A OK.
-  unfold attrs_ok in A. apply andb_true_iff in A. destruct A as [SO C9]. apply negb_true_iff in C9.
-  assert (OK' : forallb scope_ok (snd src :: ctx) = true) by (simpl; rewrite SO, OK; reflexivity).
-  destruct (scope_ok_parts _ SO) as (NE & C8 & DD).
-  rewrite E, tok_attrs_tk, tk_scope_ok; auto. simpl fst. simpl snd.
+  intros ctx name attrs src [_ E]. unfold attrs_scoped.
+  rewrite E, tok_attrs_tk, tk_spec. simpl fst. simpl snd.
   rewrite bind_attrs_pure_skip by apply forallb_rev_xmlnsish.
-  unfold spec_attrs. apply (attrs_compose _ OK'); auto.
-  split; intros; reflexivity.
+  unfold spec_attrs. apply attrs_compose.
+  split; [|split]; intros; try reflexivity. contradiction.
 Qed.
 
 Lemma all_elems_mono : forall (P Q : list (list rawattr) -> qname -> list attr -> tagsrc -> Prop),
@@ -1318,13 +1337,13 @@ Proof.
   induction kids as [|k r IHr]; simpl; auto. intros [A B]. split; [apply IH; exact A|apply IHr; exact B].
 Qed.
 
-Theorem scope_outside_finding : forall rts, Forall (all_elems name_scoped []) (parse_raw rts).
+Theorem scope_all : forall rts, Forall (all_elems name_scoped []) (parse_raw rts).
 Proof.
   intro rts. eapply Forall_impl; [|apply lexical_scope].
   intro n. apply all_elems_mono. apply elem_name_spec.
 Qed.
 
-Theorem attrs_outside_finding : forall rts, Forall (all_elems attrs_scoped []) (parse_raw rts).
+Theorem attrs_all : forall rts, Forall (all_elems attrs_scoped []) (parse_raw rts).
 Proof.
   intro rts. eapply Forall_impl; [|apply lexical_scope].
   intro n. apply all_elems_mono. apply elem_attrs_spec.
@@ -1400,47 +1419,23 @@ Proof.
   - eapply Permutation_in; [apply Permutation_sym|]; eauto.
 Qed.
 
-(* ------------------------------------------------------------ refutations *)
+(* ------------------------------------------- the former finding witnesses *)
 Local Transparent s_xml s_xmlns s_script XML_URI XMLNS_URI.
 
-Definition attrs_strict (ctx : list (list rawattr)) (_ : qname) (attrs : list attr) (src : tagsrc) : Prop :=
-  attrs = spec_attrs (snd src :: ctx) (snd src).
-Definition name_strict (ctx : list (list rawattr)) (name : qname) (_ : list attr) (src : tagsrc) : Prop :=
-  name = spec_elem_name (snd src :: ctx) (fst src).
-
-(* <a p:x="1" x="2"/> : x is dropped although no earlier attribute has its expanded name *)
+(* <a p:x="1" x="2"/> : both attributes are kept (was DESIGN 6.3 row 8) *)
 Definition w8 : list rtoken := [RTag EmptyTag [97] [([112;58;120], [49]); ([120], [50])]; REof].
-(* <a x="2" p:x="1"/> : the same attributes in the other order are both kept *)
-Definition w8' : list rtoken := [RTag EmptyTag [97] [([120], [50]); ([112;58;120], [49])]; REof].
-(* <a p:xmlns="v" y="1"/> *)
+(* <a p:xmlns="v" y="1"/> : p:xmlns is an attribute (was row 9) *)
 Definition w9 : list rtoken := [RTag EmptyTag [97] [([112;58;120;109;108;110;115], [118]); ([121], [49])]; REof].
-(* <a xmlns:p="u" xmlns:p="v"><p:b/></a> *)
+(* <a xmlns:p="u" xmlns:p="v"><p:b/></a> : the first declaration counts *)
 Definition wdup : list rtoken :=
   [RTag StartTag [97] [([120;109;108;110;115;58;112], [117]); ([120;109;108;110;115;58;112], [118])];
    RTag EmptyTag [112;58;98] []; RTag EndTag [97] []; REof].
 
-Theorem attrs_refuted_raw_vs_local :
-  ~ Forall (all_elems attrs_strict []) (parse_raw w8) /\ Forall (all_elems attrs_strict []) (parse_raw w8').
-Proof.
-  split.
-  - intro H. vm_compute in H. inversion H as [|x l H1 H2]; subst. destruct H1 as [E _]. discriminate.
-  - vm_compute. repeat constructor.
-Qed.
-
-Theorem attrs_refuted_prefixed_xmlns : ~ Forall (all_elems attrs_strict []) (parse_raw w9).
-Proof.
-  intro H. vm_compute in H. inversion H as [|x l H1 H2]; subst. destruct H1 as [E _]. discriminate.
-Qed.
-
-Theorem scope_refuted_duplicate_declaration : ~ Forall (all_elems name_strict []) (parse_raw wdup).
-Proof.
-  intro H. vm_compute in H. inversion H as [|x l H1 H2]; subst. destruct H1 as [_ [[E _] _]]. discriminate.
-Qed.
-
-(* the witnesses are inside the classes the theorems exclude, and only there *)
-Lemma witnesses_in_classes :
-  class8 [([112;58;120], [49]); ([120], [50])] = true /\
-  class8 [([120], [50]); ([112;58;120], [49])] = false /\
-  class9 [([112;58;120;109;108;110;115], [118]); ([121], [49])] = true /\
-  dup_decl [([120;109;108;110;115;58;112], [117]); ([120;109;108;110;115;58;112], [118])] = true.
+Example former_witnesses :
+  map erase (parse_raw w8) =
+    [XElem (mkq None [] [97]) [mka (mkq (Some [112]) [] [120]) [49]; mka (mkq None [] [120]) [50]] []] /\
+  map erase (parse_raw w9) =
+    [XElem (mkq None [] [97]) [mka (mkq (Some [112]) [] [120;109;108;110;115]) [118]; mka (mkq None [] [121]) [49]] []] /\
+  map erase (parse_raw wdup) =
+    [XElem (mkq None [] [97]) [] [XElem (mkq (Some [112]) [117] [98]) [] []]].
 Proof. vm_compute. auto. Qed.
